@@ -71,6 +71,15 @@ type Case struct {
 	// streams before reading any.
 	Repeat  int  `json:"repeat,omitempty"`
 	Overlap bool `json:"overlap,omitempty"`
+	// S8 (kinds_test.go): kinds of the plaintext and ciphertext readers;
+	// KindFrame is the size of the writes feeding an os.Pipe.
+	KindP     string `json:"plaintext_reader,omitempty"`
+	KindC     string `json:"ciphertext_reader,omitempty"`
+	KindFrame int    `json:"pipe_frame,omitempty"`
+	// S9: the plaintext / ciphertext source answers (0, nil) once before
+	// every k-th data read
+	EmptyP int `json:"empty_read_every_plaintext,omitempty"`
+	EmptyC int `json:"empty_read_every_ciphertext,omitempty"`
 }
 
 // MaxHeader is the limit stated in schemes/enc/v1 (fileKey.SignHeader: "The
@@ -252,6 +261,7 @@ func runCase(c *Case, record bool) (masks [][]encenv.Mask, fails []failure) {
 		}
 		srcP := encenv.NewSource(p)
 		srcP.SegSize, srcP.Chunk, srcP.Script, srcP.Record = encv1ref.SegmentSize, c.Policy[envP], encenv.ScriptFor(c.Devs, envP), record
+		srcP.EmptyEvery = c.EmptyP
 		stream, err := encenv.KitEncrypt(srcP, opts)
 		if err != nil {
 			if c.HdrTarget > MaxHeader {
@@ -315,6 +325,7 @@ func runCase(c *Case, record bool) (masks [][]encenv.Mask, fails []failure) {
 	tag := [2]string{"roundtrip", "kit-vs-reference-document"}[c.Dir]
 	srcC := encenv.NewSource(doc)
 	srcC.Chunk, srcC.Script, srcC.Record = c.Policy[envC], encenv.ScriptFor(c.Devs, envC), record
+	srcC.EmptyEvery = c.EmptyC
 	h, _ := encv1ref.SplitHeader(doc)
 	if h != nil && c.HdrTarget > 0 && h.PayloadOffset != c.HdrTarget {
 		fail("machinery", "the header is %d bytes long, the case was built for %d", h.PayloadOffset, c.HdrTarget)
@@ -440,6 +451,8 @@ func run(r *enumx.Run, replay *enumx.ReplayCase) {
 			fails, _ = bigStream(c.Dir)
 		} else if c.Repeat > 0 {
 			fails = runRepeat(&c)
+		} else if c.KindC != "" {
+			fails = runKinds(&c)
 		} else {
 			_, fails = runCase(&c, false)
 		}
@@ -451,7 +464,7 @@ func run(r *enumx.Run, replay *enumx.ReplayCase) {
 		return
 	}
 
-	r.Rule("each evaluation is one complete Encrypt->Decrypt pipeline on the real code with all three oracles (round trip; README layout; reference implementation reads kit's document / kit reads the reference's document written with the manifest members in the opposite order). S1: full product cipher{unset,AES-GCM,CHACHA20-POLY1305} x 8 key-wrap configurations (5 algorithms, 2 aliases, RSA-4096) x 5 key-name options x 14 plaintext lengths x 2 directions. S2: uniform chunking policies (source chunk {fill,1,7,4096,65535,65536} x consumer buffer {big,1,7,4096}) for each pipeline half. S2h: the ciphertext source delivers uniform frames of headerLength+k bytes, k in -2..3, and 2*headerLength+1. S3: every set of <= bound deviations {0 bytes,1 byte,n-1 bytes,stop at segment boundary,data+EOF, Read ends at header end+k for k in -1..3 (ciphertext source) | 1-byte buffer,7-byte buffer} placed on the calls of the four environments, generated once each in (environment, call index) order from the applicability recorded in the parent run. S5: wrap functions that scrub / overwrite / return / append to the key buffer they were given and callers that zero or overwrite the slice their unwrap function returned right after Decrypt returns (immediately or after one yield; sequential under GOMAXPROCS(1)). Every pipeline also checks that Decrypt left the slice its unwrap function returned untouched (when it returned, after the stream was read, after Close). S7: an unwrap function that hands out the same slice for the same wrapped key (caching vault client): the document is decrypted 2 and 3 times in a row, and two reference documents sharing a file key alternately, streams read one after the other or all opened first. S6: header lengths B-1,B,B+1 for B in {512..32768}, 65535, 65536 and 65537 (Encrypt must refuse or still round-trip) reached by a long wrapped-key envelope or a long key name. S4 (thorough): one streamed 65538-segment document in both directions, so that segment counters beyond 65535 occur. Every evaluation is a distinct case by construction; none is trivial (each runs the full pipeline).")
+	r.Rule("each evaluation is one complete Encrypt->Decrypt pipeline on the real code with all three oracles (round trip; README layout; reference implementation reads kit's document / kit reads the reference's document written with the manifest members in the opposite order). S1: full product cipher{unset,AES-GCM,CHACHA20-POLY1305} x 8 key-wrap configurations (5 algorithms, 2 aliases, RSA-4096) x 5 key-name options x 14 plaintext lengths x 2 directions. S2: uniform chunking policies (source chunk {fill,1,7,4096,65535,65536} x consumer buffer {big,1,7,4096}) for each pipeline half. S2h: the ciphertext source delivers uniform frames of headerLength+k bytes, k in -2..3, and 2*headerLength+1. S3: every set of <= bound deviations {0 bytes,1 byte,n-1 bytes,stop at segment boundary,data+EOF, Read ends at header end+k for k in -1..3 (ciphertext source) | 1-byte buffer,7-byte buffer} placed on the calls of the four environments, generated once each in (environment, call index) order from the applicability recorded in the parent run. S5: wrap functions that scrub / overwrite / return / append to the key buffer they were given and callers that zero or overwrite the slice their unwrap function returned right after Decrypt returns (immediately or after one yield; sequential under GOMAXPROCS(1)). Every pipeline also checks that Decrypt left the slice its unwrap function returned untouched (when it returned, after the stream was read, after Close). S7: an unwrap function that hands out the same slice for the same wrapped key (caching vault client): the document is decrypted 2 and 3 times in a row, and two reference documents sharing a file key alternately, streams read one after the other or all opened first. S8: reader kinds for the plaintext source of Encrypt and the ciphertext source of Decrypt: Read only; bytes.Reader; a regular *os.File; a reader whose Seek always fails; the read end of an os.Pipe fed by a goroutine; a reader with consistent Seek/ReadAt/WriteTo/ReadByte; one whose optional methods all fail. S9: sources that answer (0,nil) once before every k-th data read (k in {1,2,7}, small chunks, up to 1024 empty reads per stream, never two in a row). S6: header lengths B-1,B,B+1 for B in {512..32768}, 65535, 65536 and 65537 (Encrypt must refuse or still round-trip) reached by a long wrapped-key envelope or a long key name. S4 (thorough): one streamed 65538-segment document in both directions, so that segment counters beyond 65535 occur. Every evaluation is a distinct case by construction; none is trivial (each runs the full pipeline).")
 
 	// S3 is cheap (a few thousand pipelines), so both tiers take all placements
 	// of <= 2 deviations; quick restricts S2/S3 to the boundary lengths.
@@ -535,6 +548,63 @@ func run(r *enumx.Run, replay *enumx.ReplayCase) {
 	}
 	r.Sample(s7[len(s7)/2])
 	lap("S7")
+
+	// ---- S8: reader kinds (kinds_test.go)
+	var s8 []*Case
+	for _, n := range []int{0, 1, 65536, 65537, 131073} {
+		for ci := 1; ci <= 2; ci++ {
+			for _, kind := range readerKinds {
+				frames := []int{0}
+				if kind == "os.Pipe" {
+					frames = []int{0, 4096, 177} // one write; page-sized writes; header length + 1 for A256KW
+				}
+				for _, fr := range frames {
+					s8 = append(s8,
+						&Case{Len: n, Cipher: ci, KW: chunkKW, Dir: 0, KindP: "plain", KindC: kind, KindFrame: fr},
+						&Case{Len: n, Cipher: ci, KW: chunkKW, Dir: 0, KindP: kind, KindC: "plain", KindFrame: fr},
+						&Case{Len: n, Cipher: ci, KW: chunkKW, Dir: 1, KindC: kind, KindFrame: fr})
+				}
+			}
+		}
+	}
+	doneS8 := r.Parallel(len(s8), func(i int) {
+		report(s8[i], runKinds(s8[i]))
+		r.Count(1, 1)
+	})
+	if doneS8 == len(s8) {
+		r.Space(fmt.Sprintf("S8 reader kinds: %d pipelines = 5 lengths x 2 ciphers x kinds %v (os.Pipe fed by one write, 4096-byte and 177-byte writes) as ciphertext source of Decrypt (kit's and the reference's document) and as plaintext source of Encrypt", len(s8), readerKinds))
+	} else {
+		r.Incomplete(fmt.Sprintf("S8 reader kinds: %d of %d", doneS8, len(s8)))
+	}
+	r.Sample(s8[len(s8)/2])
+	lap("S8")
+
+	// ---- S9: periodic empty reads: the source answers (0, nil) once before
+	// every k-th data read, never twice in a row; small chunks, so that one
+	// stream sees hundreds to thousands of them
+	var s9 []*Case
+	for _, sh := range []struct{ n, chunk int }{{65537, 256}, {1 << 20, 4096}, {1 << 20, 1024}} {
+		for ci := 1; ci <= 2; ci++ {
+			for _, k := range []int{1, 2, 7} {
+				s9 = append(s9,
+					&Case{Len: sh.n, Cipher: ci, KW: chunkKW, Policy: [4]int{sh.chunk, 0, 0, 0}, EmptyP: k},
+					&Case{Len: sh.n, Cipher: ci, KW: chunkKW, Policy: [4]int{0, 0, sh.chunk, 0}, EmptyC: k},
+					&Case{Len: sh.n, Cipher: ci, KW: chunkKW, Dir: 1, Policy: [4]int{0, 0, sh.chunk, 0}, EmptyC: k})
+			}
+		}
+	}
+	doneS9 := r.Parallel(len(s9), func(i int) {
+		_, fails := runCase(s9[i], false)
+		report(s9[i], fails)
+		r.Count(1, 1)
+	})
+	if doneS9 == len(s9) {
+		r.Space(fmt.Sprintf("S9 periodic empty reads: %d pipelines = {65537 bytes in 256-byte chunks, 1 MiB in 4096- and 1024-byte chunks} x 2 ciphers x (0,nil) before every k-th data read, k in {1,2,7} (up to 1024 empty reads per stream, never two in a row) x {plaintext source, ciphertext source of kit's document, of the reference's document}", len(s9)))
+	} else {
+		r.Incomplete(fmt.Sprintf("S9 periodic empty reads: %d of %d", doneS9, len(s9)))
+	}
+	r.Sample(s9[0])
+	lap("S9")
 
 	// ---- S4 (thorough only): the streamed 65 538-segment document, both
 	// directions, started now and joined at the end
